@@ -70,6 +70,7 @@ class SceneSpec:
     sensor_ego_offset: Optional[Tuple[float, float, float]] = None  # non-lidar sensors captured at a slightly other ego pose
     record_stamp_offset_us: int = 0  # sensor records stamped this much before their sample (sweep start vs key-frame time)
     instance_names: bool = False  # write the optional T4 column instance.instance_name ("<prefix>::<readable id>")
+    scene_starts: Tuple[int, ...] = (0,)  # sample indices at which a new scene record begins (nuScenes-style multi-scene tables)
 
 
 def tok(kind: str, i: Any) -> str:
@@ -130,16 +131,20 @@ def write_dataset(root: str, spec: SceneSpec, tables: Optional[Dict[str, list]] 
         open(os.path.join(root, "maps", "map.png"), "wb").close()
 
     n = len(spec.samples)
+    starts = sorted({0} | {int(i) for i in spec.scene_starts if 0 < int(i) < n}) if n else [0]
+    bounds = list(zip(starts, starts[1:] + [n]))
+    scene_of = {k: si for si, (a, b) in enumerate(bounds) for k in range(a, b)}
     scene = [
         {
-            "token": tok("scene", 0),
+            "token": tok("scene", si),
             "log_token": tok("log", 0),
-            "nbr_samples": n,
-            "first_sample_token": tok("sample", 0),
-            "last_sample_token": tok("sample", n - 1),
-            "name": "verif-scene",
+            "nbr_samples": b - a,
+            "first_sample_token": tok("sample", a),
+            "last_sample_token": tok("sample", b - 1),
+            "name": f"verif-scene-{si}" if si else "verif-scene",
             "description": "generated",
         }
+        for si, (a, b) in enumerate(bounds)
     ]
     sample, sample_data, ego_pose, sample_annotation = [], [], [], []
     inst_anns: Dict[str, List[str]] = {}
@@ -149,9 +154,9 @@ def write_dataset(root: str, spec: SceneSpec, tables: Optional[Dict[str, list]] 
             {
                 "token": tok("sample", k),
                 "timestamp": int(s.t),
-                "prev": tok("sample", k - 1) if k > 0 else "",
-                "next": tok("sample", k + 1) if k < n - 1 else "",
-                "scene_token": tok("scene", 0),
+                "prev": tok("sample", k - 1) if (k > 0 and scene_of[k - 1] == scene_of[k]) else "",
+                "next": tok("sample", k + 1) if (k < n - 1 and scene_of[k + 1] == scene_of[k]) else "",
+                "scene_token": tok("scene", scene_of[k]),
             }
         )
         ego_pose.append({"token": tok("ego", k), "timestamp": int(s.t), "rotation": list(s.eq()), "translation": list(s.ego_pos)})
